@@ -1,0 +1,30 @@
+//go:build verif
+
+package telemetrykeys
+
+// Contracts for the deductive verifier in /verif (comment-only file; see /verif/DESIGN.md).
+
+//@ type withTelemetry invariant self.cause != nil
+//@ method (*withTelemetry).Error
+//@   props C10
+//@   ensures result == msg(self.cause)
+//@ method (*withTelemetry).Cause
+//@   props C07 C10 C14
+//@   ensures result == self.cause
+//@ method (*withTelemetry).Unwrap
+//@   props C07 C10 C14
+//@   ensures result == self.cause
+
+//@ method (*withTelemetry).SafeDetails
+//@   props C03 C11 C12
+//@   ensures result == self.keys
+
+//@ func WithTelemetry
+//@   props C10 C07 C12
+//@   ensures err == nil ==> result == nil
+//@   ensures err != nil ==> typeis(result, *withTelemetry) && result.(*withTelemetry).cause == err && result.(*withTelemetry).keys == keys
+
+//@ func decodeWithTelemetry
+//@   props C05 C01 C11
+//@   requires cause != nil
+//@   ensures typeis(result, *withTelemetry) && result.(*withTelemetry).cause == cause && result.(*withTelemetry).keys == keys
